@@ -645,6 +645,9 @@ impl Session {
             "crash" => {
                 image::crash_step(self, step);
             }
+            "crash_in_open" => {
+                image::crash_in_open_step(self, step);
+            }
             "lock_try" => {
                 // a second contender on the same directory while (possibly) owned
                 let kind = step["kind"].as_str().unwrap_or("open").to_string();
